@@ -1134,6 +1134,14 @@ func CellField(al *ssa.Alloc, path string) (key, loc string) {
 	return "L:" + al.Parent().String() + "." + al.Name() + "." + path, allocName(al) + "." + path
 }
 
+// Cell names the non-escaping local cell al itself (see CellField).
+func Cell(al *ssa.Alloc) (key, loc string) {
+	if !nonEscaping(al) {
+		return "", ""
+	}
+	return "L:" + al.Parent().String() + "." + al.Name(), allocName(al)
+}
+
 // ReachingStores enumerates the values written by the stores that can reach
 // the load u, when every reaching definition is a store in this function to
 // exactly the loaded location (ok == false otherwise: the location may have
@@ -1190,6 +1198,22 @@ func readOnlyFreeVar(fv *ssa.FreeVar, d int) bool {
 				return false
 			}
 		case *ssa.DebugRef:
+		case *ssa.FieldAddr:
+			// a field of the captured struct: only loaded from
+			if u.X != ssa.Value(fv) || u.Referrers() == nil {
+				return false
+			}
+			for _, r2 := range *u.Referrers() {
+				switch l := r2.(type) {
+				case *ssa.UnOp:
+					if l.Op != token.MUL {
+						return false
+					}
+				case *ssa.DebugRef:
+				default:
+					return false
+				}
+			}
 		case *ssa.MakeClosure:
 			fn, ok := u.Fn.(*ssa.Function)
 			if !ok {
